@@ -288,4 +288,36 @@ func init() {
 		RegGen(p, "plus histories whose timestamps differ by exactly the minimum report interval (and one nanosecond off)", genExact)
 	}
 	RegGen("C03", "plus a history with 2000 channels, all reportable in the same round", genFull)
+	// A single stream of a channel has no value for one round (an outage of one feed): the channel is due, the real
+	// JSON codec refuses the report (it lacks a value) — and the window of that round must not simply vanish.
+	genOutage := func(g *G) {
+		for _, ver := range []uint32{1, 0} {
+			for _, outage := range []int{1, 2} { // length of the outage in rounds
+				w := newWorld(g)
+				w.f, w.hasPred, w.version, w.interval, w.alias, w.verbose = 1, false, ver, uint64(ver), 0, false
+				w.now = 1_700_000_000_000_000_000
+				def := J{"format": "2", "opts": "", "streams": []any{J{"sid": "1", "agg": "1"}, J{"sid": "2", "agg": "1"}}}
+				rounds := []any{}
+				for r := 0; r < 6+outage; r++ {
+					w.now += 2_000_000_000
+					obs, honest := []any{}, []any{}
+					for k := 0; k < 4; k++ {
+						vals := []any{J{"sid": "1", "v": svJ(llo.ToDecimal(decimal.New(int64(1000+r), -2)))}}
+						if r < 3 || r >= 3+outage {
+							vals = append(vals, J{"sid": "2", "v": svJ(llo.ToDecimal(decimal.New(int64(2000+r), -2)))})
+						}
+						o := J{"retire": false, "attested": "", "ts": S(w.now + uint64(k)), "removes": []any{}, "updates": []any{}, "values": vals}
+						if r == 0 {
+							o["updates"] = []any{J{"id": "1", "def": def}}
+						}
+						obs = append(obs, o)
+						honest = append(honest, k)
+					}
+					rounds = append(rounds, J{"obs": obs, "honest": honest})
+				}
+				g.Emit(J{"op": "llo.history", "cfg": w.cfgJ(), "startSeqNr": 1, "rounds": rounds, "attestations": []any{}, "strictCodec": true}, "history", "one-stream-outage")
+			}
+		}
+	}
+	RegGen("C03", "plus histories in which one stream of a JSON channel has no value for one or two rounds (real JSON codec decides whether the report can be encoded)", genOutage)
 }
